@@ -40,6 +40,8 @@ impl Compress {
             bail!(DSError::InvalidName("Empty name"));
         }
         loop {
+            #[cfg(dnssector_verif)]
+            crate::verif_hooks::tick();
             if offset >= barrier_offset {
                 if offset >= packet_len {
                     bail!(DSError::InvalidName("Truncated name"));
